@@ -21,4 +21,82 @@ def pyIndex (len : Nat) (i : Int) : Option Nat :=
   if 0 ≤ i then (if i.toNat < len then some i.toNat else none)
   else (if (-i).toNat ≤ len then some (len - (-i).toNat) else none)
 
+/-! ### `int()` and `float()` string grammars (acceptance; value for `int`) -/
+
+def isSpaceBytes (c : Nat) : Bool := c == 32 || (9 ≤ c && c ≤ 13)
+/-- `str` whitespace within ISO-8859-1 -/
+def isSpaceStr (c : Nat) : Bool := isSpaceBytes c || (28 ≤ c && c ≤ 31) || c == 133 || c == 160
+def isDigit (c : Nat) : Bool := 48 ≤ c && c ≤ 57
+
+def stripBy (sp : Nat → Bool) (s : List Nat) : List Nat :=
+  ((s.dropWhile sp).reverse.dropWhile sp).reverse
+
+/-- digits with single underscores allowed between digits; returns the value -/
+def digitsVal : List Nat → Option Nat
+  | [] => none
+  | c :: rest => if !isDigit c then none else go (c - 48) rest
+where
+  go (acc : Nat) : List Nat → Option Nat
+    | [] => some acc
+    | 95 :: c :: rest => if isDigit c then go (acc * 10 + (c - 48)) rest else none
+    | c :: rest => if isDigit c then go (acc * 10 + (c - 48)) rest else none
+
+def pyIntCore (sp : Nat → Bool) (s : List Nat) : Option Int :=
+  match stripBy sp s with
+  | 43 :: r => (digitsVal r).map Int.ofNat
+  | 45 :: r => (digitsVal r).map (fun n => - Int.ofNat n)
+  | r => (digitsVal r).map Int.ofNat
+
+/-- `int(b"...")` -/
+def pyIntBytes (s : List Nat) : Except PyErr Int :=
+  match pyIntCore isSpaceBytes s with | some v => .ok v | none => .error .ValueError
+/-- `int("...")` for ISO-8859-1 decoded text -/
+def pyIntStr (s : List Nat) : Except PyErr Int :=
+  match pyIntCore isSpaceStr s with | some v => .ok v | none => .error .ValueError
+
+def lower (c : Nat) : Nat := if 65 ≤ c && c ≤ 90 then c + 32 else c
+
+/-- split a digit/underscore run off the front; returns (number of digits, rest) or none if malformed -/
+def takeDigits : List Nat → Option (Nat × List Nat)
+  | [] => some (0, [])
+  | c :: rest =>
+    if isDigit c then go 1 rest else some (0, c :: rest)
+where
+  go (n : Nat) : List Nat → Option (Nat × List Nat)
+    | [] => some (n, [])
+    | 95 :: c :: rest => if isDigit c then go (n + 1) rest else none
+    | c :: rest => if isDigit c then go (n + 1) rest else some (n, c :: rest)
+
+/-- Does CPython's `float(str)` accept this ISO-8859-1 string? -/
+def pyFloatAccepts (s : List Nat) : Bool :=
+  let t := stripBy isSpaceStr s
+  let t := match t with | 43 :: r => r | 45 :: r => r | r => r
+  let l := t.map lower
+  if l == [105,110,102] || l == [105,110,102,105,110,105,116,121] || l == [110,97,110] then true
+  else
+    match takeDigits t with
+    | none => false
+    | some (n1, r1) =>
+      let afterFrac : Option (Nat × List Nat) :=
+        match r1 with
+        | 46 :: r2 => (match takeDigits r2 with
+            | none => none
+            | some (n2, r3) => some (n1 + n2, r3))
+        | _ => some (n1, r1)
+      match afterFrac with
+      | none => false
+      | some (nd, r) =>
+        if nd == 0 then false
+        else match r with
+          | [] => true
+          | e :: r' =>
+            if e == 101 || e == 69 then
+              let r'' := match r' with | 43 :: x => x | 45 :: x => x | x => x
+              match takeDigits r'' with
+              | some (n3, []) => n3 > 0
+              | _ => false
+            else false
+
+def s2l (s : String) : List Nat := s.toList.map Char.toNat
+
 end FlowCal.Py
